@@ -828,6 +828,12 @@ func (ctx *context) Run() (res *Result) {
 		instr.fn(ctx)
 		ctx.addDebug(ctx.pfx + "----\n")
 		_ = x
+		if ctx.res.runErr != nil {
+			// An instruction reported an error (eg from the data tree).
+			// Stop here so it is not replaced by a follow-on failure of
+			// the instructions that expected its result.
+			break
+		}
 	}
 
 	return ctx.res
